@@ -573,6 +573,8 @@ class FieldCollection(FieldBase):
         """
         if label is None:
             label = self.label
+        if dtype is None:
+            dtype = self.dtype
         fields = [f.copy() for f in self.fields]
 
         # create the collection from the copied fields
